@@ -59,7 +59,7 @@ func (f *ReadByte) Call(s *slip.Scope, args slip.List, depth int) slip.Object {
 	}
 	rr, ok := is.(io.ByteReader)
 	if !ok {
-		slip.TypePanic(s, depth, "stream", args[0], "input-stream")
+		slip.TypePanic(s, depth, "stream", is, "input-stream")
 	}
 	b, err := rr.ReadByte()
 	if err != nil {
